@@ -117,6 +117,8 @@ impl Module {
         section: wasmparser::TypeSectionReader,
         ids: &mut IndicesToIds,
     ) -> Result<()> {
+        #[cfg(walrus_verif)]
+        crate::verif::emit("interpret", "type", -1, -1);
         log::debug!("parsing type section");
         for ty in section.into_iter_err_on_gc_types() {
             let fun_ty = ty?;
